@@ -160,6 +160,21 @@ func w2sGen(c *simrt.Choice, prop, tier string) any {
 			sc.Final = append(sc.Final, w2sOp{K: "hist", Ch: ch, Lim: -1, Rev: c.Intn(2) == 1, Meta: cfgs[ch].meta})
 		}
 	}
+	if prop == "C19" && !sc.Grid && c.Intn(10) == 0 {
+		// key-reuse-around-expiry scenario (drawn last): one more task publishes the same
+		// idempotency key three times: once, again shortly after its result TTL elapsed
+		// (a fresh publish, usually before the once-a-second cleanup has dropped the old
+		// result) and once more well inside the new result's TTL (must be suppressed)
+		ttl := []int{2, 3}[c.Intn(2)]
+		pub := func() w2sOp {
+			return w2sOp{K: "pub", Ch: 0, Size: cfgs[0].size, TTL: cfgs[0].ttl, Meta: cfgs[0].meta, IK: 1, ITTL: ttl}
+		}
+		sc.Tasks = append(sc.Tasks, []w2sOp{
+			{K: "sleep", Ms: []int{1, 200, 700}[c.Intn(3)]}, pub(),
+			{K: "sleep", Ms: ttl*1000 + []int{100, 300, 600}[c.Intn(3)]}, pub(),
+			{K: "sleep", Ms: []int{700, 1000, 1300}[c.Intn(3)]}, pub(),
+		})
+	}
 	return sc
 }
 
